@@ -17,21 +17,27 @@ recursion terminates exactly on finite token trees, and on them the result does 
 this is `deepcopy()` for every heap, every object and every nesting depth.
 
 What is proved, for ALL heaps / objects / depths / mutation sequences:
+* `deepcopyLoop_eq` — the loop as written (store after every recursive call) is `deepcopyN`.
 * `deepcopy_tokens_fresh` — every group reachable through the token lists of the copy is a new object with a new list
   cell and a new dict cell, is not in the token tree of the original, and `as_list()` of the copy = `as_list()` of the
-  original to every depth; the original still shows what it showed.
+  original to every depth; the original still shows what it showed.  `deepcopy_tokens_fresh_full`: not reachable from
+  the original by any route (hypothesis `FD`: everything the original reaches, names included, is allocated, acyclic).
+* `deepcopy_views` — both views (`dumpN`: tokens, names with all occurrences, list-all names, nested) are preserved.
 * `deepcopy_frame_tokens` — any sequence of own mutations (tokens *or* names: all of `Mut`) of any group in the copy's
   token tree leaves the original's `as_list()` unchanged, and vice versa.
 * `deepcopy_frame_tokens_many` — the same for sequences that mutate many different groups of the copy's token tree.
+* `deepcopy_frame_views` — the same at the level of `view` (tokens and names) of every well-formed original object.
 * `deepcopy_names_shared` — the finding `deepcopy_named_group_aliased`, general form: at EVERY depth the copy of a group
   has the very same name-table entries (occurrence-list cells) as the original group, and no occurrence list is
   touched: every named nested value of the copy *is* the original's object.
 * `deepcopy_named_alias_any_depth` — for every depth a concrete heap (`chainHeap`) where that happens.
+* `copy.deepcopy` / pickle (model `deepObjN` / `copyModuleDeep`, the memoised graph copy), section (5):
+  `copyModule_deep_fresh` (full separation, names included), `copyModule_deep_frame` (view-level frames both ways),
+  `copyModule_deep_as_list`, `copyModule_deep_views` (both views preserved at every depth).
 
 Not modelled here: container tokens (results.py:598-605: a `MutableMapping`/`Iterable` token is rebuilt, groups in it
-deep-copied) — `HVal` has scalars and references only.  For `copy.deepcopy`/pickle (section (5) below) separation
-and frames are proved (`copyModule_deep_fresh`, `copyModule_deep_frame`), the list view (`copyModule_deep_as_list`)
-and both views (`copyModule_deep_views`).
+deep-copied) — `HVal` has scalars and references only; cyclic structures (Python: RecursionError through tokens; the
+memo of `copy.deepcopy` would handle cycles through names, hypothesis `FD` excludes them).
 -/
 namespace PP.PRHeap
 
@@ -404,6 +410,15 @@ example : FD exHeap.next exHeap 2 5 := by
       have : vp = (.atom "b", 1) := by simpa [exHeap] using hvp
       subst this
       cases hn
+
+/-- … and its token tree has depth 1: the hypotheses of `deepcopy_views`, `deepcopy_frame_views`,
+    `deepcopy_tokens_fresh_full` hold together on it -/
+example : TWF exHeap 1 5 := by
+  refine ⟨by decide, by decide, by decide, ?_⟩
+  intro n hn
+  have : n = 2 := by simpa [exHeap] using hn
+  subst this
+  exact ⟨by decide, by decide, by decide, fun n hn => by simp [exHeap] at hn⟩
 
 /-- … its deep copy is object 15 = `[<object 10>, 'b']` with `g ↦ <object 10>` (the memo keeps `c['g'] is c[0]`),
     `x ↦ 'b'`; object 10 = `['a']` -/
